@@ -90,7 +90,9 @@ func (g *GlobalTransactionManager) Commit(ctx context.Context, gtr *GlobalTransa
 	}
 	var res interface{}
 	var err error
+	sent := false
 	for bf.Ongoing() {
+		sent = true
 		if res, err = getty.GetGettyRemotingClient().SendSyncRequest(req); err == nil {
 			break
 		}
@@ -98,16 +100,34 @@ func (g *GlobalTransactionManager) Commit(ctx context.Context, gtr *GlobalTransa
 		bf.Wait()
 	}
 
-	if err != nil || bf.Err() != nil {
-		lastErr := errors.Wrap(err, bf.Err().Error())
+	if !sent || err != nil {
+		lastErr := secondPhaseError("commit", gtr.Xid, err, bf.Err())
 		log.Warnf("send global commit request failed, xid %s, error %v", gtr.Xid, lastErr)
 		return lastErr
 	}
 
+	resp, ok := res.(message.GlobalCommitResponse)
+	if !ok {
+		return fmt.Errorf("global commit of xid %s got an unexpected response %v", gtr.Xid, res)
+	}
 	log.Infof("send global commit request success, xid %s", gtr.Xid)
-	gtr.TxStatus = res.(message.GlobalCommitResponse).GlobalStatus
+	gtr.TxStatus = resp.GlobalStatus
 
 	return nil
+}
+
+// secondPhaseError builds the error of a second phase request that was never
+// sent (context already done) or never answered (retries used up, context done).
+func secondPhaseError(op, xid string, sendErr, stopErr error) error {
+	switch {
+	case sendErr != nil && stopErr != nil:
+		return errors.Wrap(sendErr, stopErr.Error())
+	case sendErr != nil:
+		return sendErr
+	case stopErr != nil:
+		return errors.Wrap(stopErr, fmt.Sprintf("global %s request of xid %s not sent", op, xid))
+	}
+	return fmt.Errorf("global %s request of xid %s not sent", op, xid)
 }
 
 // Rollback the global transaction.
@@ -132,7 +152,9 @@ func (g *GlobalTransactionManager) Rollback(ctx context.Context, gtr *GlobalTran
 	}
 
 	var err error
+	sent := false
 	for bf.Ongoing() {
+		sent = true
 		if res, err = getty.GetGettyRemotingClient().SendSyncRequest(req); err == nil {
 			break
 		}
@@ -140,14 +162,18 @@ func (g *GlobalTransactionManager) Rollback(ctx context.Context, gtr *GlobalTran
 		bf.Wait()
 	}
 
-	if err != nil && bf.Err() != nil {
-		lastErr := errors.Wrap(err, bf.Err().Error())
+	if !sent || err != nil {
+		lastErr := secondPhaseError("rollback", gtr.Xid, err, bf.Err())
 		log.Errorf("GlobalRollbackRequest rollback failed, xid %s, error %v", gtr.Xid, lastErr)
 		return lastErr
 	}
 
+	resp, ok := res.(message.GlobalRollbackResponse)
+	if !ok {
+		return fmt.Errorf("global rollback of xid %s got an unexpected response %v", gtr.Xid, res)
+	}
 	log.Infof("GlobalRollbackRequest rollback success, xid %s,", gtr.Xid)
-	gtr.TxStatus = res.(message.GlobalRollbackResponse).GlobalStatus
+	gtr.TxStatus = resp.GlobalStatus
 
 	return nil
 }
